@@ -26,6 +26,7 @@ VALUES = ['nil', TRUE, FALSE,
           '9223372036854775807', '9223372036854775808', '(-9223372036854775808)', '(-9223372036854775809)', '18446744073709551616', '1' + '0' * 308, 'INF', '(-INF)', 'NAN',
           '1000000', '123456789', '0.1', '0.2', '4294967295', '1.5',
           '""', '"a"', '"abc"', '"12"', '"3.5"', '"০৭"', '" 1"', '"1e2"', '"0x10"', '"inf"', '"nan"', '"-"', '"true"', '"1_0"', '"-5"', '"9223372036854775808"', '"0.5"',
+          '"\u0939"', '"\u0131"', '"1\u09653"', '"\u0968"', '"\uff11"', '"1\u00a0"',
           '[]', '[1]', 'A', 'B', 'E1', 'E2', '[1, 2]', '{}', 'O', 'Q', '({p: 1})', 'f', 'g', N['len'], N['sqrt'], N['len']]
 BINOPS = ['+', '-', '*', '/', '%', '<', '<=', '>', '>=', '==', '!=', '&', '|', '^', '<<', '>>']
 POW_BASE = ['0', '1', '2', '3', '(-2)', '10', '0.5', 'nil', '"2"', '"a"', TRUE, '[]', 'INF', 'NAN']
@@ -179,6 +180,10 @@ def c03(tier, rng):
         f'{FUN} p(a) {{ {VAR} a = 2; }}\np(1);', f'{FUN} p(a) {{ a = 2; {P} a; }}\n{VAR} a = 1;\np(5);\n{P} a;',
         f'{FUN} p() {{ {VAR} p = 2; }}\np();',
     ]
+    for a, b_ in [('ম\u09cbট', 'ম\u09c7\u09beট'), ('প\u09dc', 'প\u09a1\u09bc'), ('ন\u09df', 'ন\u09af\u09bc'), ('caf\u00e9', 'cafe\u0301'), ('\u212bx', '\u00c5x'), ('ক\u09cc', 'ক\u09c7\u09d7')]:
+        extra.append(f'{VAR} {a} = 1;\n{VAR} {b_} = 2;\n{a} = {a} + 10;\n{P} {a};\n{P} {b_};\n{{ {VAR} {b_} = 30; {a} = {b_}; }}\n{P} {a};\n{P} {b_};')
+        extra.append(f'{VAR} {a} = 1;\n{P} {b_};')
+        extra.append(f'{FUN} f({a}, {b_}) {{ {RET} {a} - {b_}; }}\n{P} f(9, 4);')
     for s_ in extra:
         cases.append(prog_case(s_ + '\n', 'named-shape'))
     n = 2000 if tier == 'quick' else 40000
@@ -380,7 +385,8 @@ def c05(tier, rng):
             cases.append(prog_case(f'{P} "s";\n{body}\n{P} "e";\n', 'stray-signal'))
     rule = (f'{n} seeded skeletons nesting if/else, while, for (inner counter, outer counter, missing condition), blocks, break and continue to depth 1..3 with a trace point at every step and the counter printed after each loop; '
             f'every body of three actions out of {acts} in six loop shapes ({len(acts) ** 3} x 7); every value kind as condition; stray break/continue/return in 7 contexts. Non-trivial = prints or diagnoses.')
-    return {'cases': cases, 'rule': rule, 'exhaustive': True}
+    return {'cases': cases, 'cli': long_loop_cases(), 'rule': rule + ' Three loops of 2.5 to 6 million iterations through the executable (implementation alone: the prescribed output).',
+            'exhaustive': True, 'cli_oracles': [cli_oracle_expect], 'cli_timeout': 90}
 
 # ---------------------------------------------------------------- C06
 
@@ -397,6 +403,9 @@ EXPR_FAULTS = [
     ('assign-undefined', '(অজানা_নাম = 1)', "Undefined variable 'অজানা_নাম'."),
     ('negshift', '(1 << (0 - 1))', 'Shift count must not be negative.'),
     ('notobject', '(5).p', 'Invalid property access. Not an object.'),
+    ('delete-percent', N['delete'] + '({a: 1}, "50%d")', "Function call failed: key '50%d' not found in object"),
+    ('property-percent', '([{p: 1}][7 % 2 - 1]).m', "Property 'm' does not exist on object"),
+    ('negate-percent', '(-"100%s")', 'expected a number, got'),
 ]
 # templates: lines with FAULT where a faulty *expression* goes; one statement per line so the line is known
 EXPR_TEMPLATES = {
@@ -651,7 +660,9 @@ ARR_OPS = [
 ]
 ARR_ERR = ['{P} x[3];', '{P} x[0 - 1];', 'x[0.5] = 1;', '{P} x["1"];', '{P} x["a"];', 'x[{LEN}(x)] = 1;', 'z = {RM}(x, 0 - 1);', 'z = {RM}(x, 3);', 'z = {RM}(x, 0.5);', 'z = {RM}(x, "1");',
            '{P} {LEN}(x) + 1;', '{P} {LEN}(z) == 0;', 'z = {AP}(x);', 'z = {AP}(5, 1);', '{P} x[nil];', '{P} x[{TRUE}];', '{P} x[[0]];', 'x["0"] = 5;', '{P} x[2.0];', '{P} x[1e];',
-           '{P} x[0.5];', '{P} x[1.5];', '{P} x[2.9];', '{P} x[0 - 0.5];', '{P} x[1 + 0.5];', 'x[1.5] = 1;', 'x[0 - 0.5] = 1;', '{P} x[{LEN}(x) - 0.5];', '{P} x[(-1)];', '{P} x[-1];', 'x[-1] = 7;', '{P} y[0][0];', '{P} x[1][0];']
+           '{P} x[0.5];', '{P} x[1.5];', '{P} x[2.9];', '{P} x[0 - 0.5];', '{P} x[1 + 0.5];', 'x[1.5] = 1;', 'x[0 - 0.5] = 1;', '{P} x[{LEN}(x) - 0.5];', '{P} x[(-1)];', '{P} x[-1];', 'x[-1] = 7;', '{P} y[0][0];', '{P} x[1][0];',
+           '{P} x[1.0000000001];', '{P} x[0.9999999999];', 'x[(0.1 + 0.2) * 10 - 2] = 99;', '{P} x[0 - 0.0000000001];', 'z = {RM}(x, 0.9999999999);', '{P} x[2.0000000000000004];',
+           '{P} x[1.0000000000000002];', 'x[0.99999999999999989] = 5;', '{P} x["1.0000000001"];']
 
 def c11(tier, rng):
     sub = lambda s_: s_.replace('{AP}', N['append']).replace('{RM}', N['remove']).replace('{LEN}', N['len']).replace('{P}', P).replace('{TRUE}', TRUE)
@@ -787,7 +798,9 @@ def c13(tier, rng):
                 cli.append(CliCase('repeat-fresh-process', ['p.bn'], {'p.bn': src.encode()}, b'7\nx\n', 'p.bn', note=j))
     rule = (f'{len(progs)} programs (object-operation sequences over a key pool with case-only and length differences, object literals whose initialisers print, random programs, the shipped examples without ক্লক, programs that overwrite every built-in name or end in an error) '
             f'each run {reps}x in one process and {reps // 2}x in fresh processes; stdout, stderr and status must be byte-identical across runs and equal to the model. Non-trivial = all.')
-    return {'cases': cases, 'cli': cli, 'rule': rule, 'exhaustive': False, 'oracles': [oracle_repeat_equal], 'cli_oracles': [cli_oracle_repeat]}
+    cli += long_loop_cases()
+    return {'cases': cases, 'cli': cli, 'rule': rule + ' Three loops of 2.5 to 6 million iterations through the executable (implementation alone: the prescribed output).', 'exhaustive': False,
+            'oracles': [oracle_repeat_equal], 'cli_oracles': [cli_oracle_repeat, cli_oracle_expect], 'cli_timeout': 90}
 
 def cli_oracle_repeat(clis):
     bad, groups = [], {}
@@ -804,7 +817,8 @@ def cli_oracle_repeat(clis):
 
 PROBE_PRE = (f'{FUN} p(tag, v) {{ {P} "<" + tag + ">"; {RET} v; }}\n{FUN} f0() {{ {RET} 0; }}\n{FUN} id3(a, b, c) {{ {RET} [a, b, c]; }}\n'
              f'{VAR} A = [10, 20, 30];\n{VAR} O = {{k: 1}};\n{VAR} x = 0;\n')
-TRUTH_VALUES = ['nil', FALSE, TRUE, '0', '(-0)', '(10 ** 400 - 10 ** 400)', '1', '0.5', '""', '"a"', '"0"', '" "', '[]', '[0]', '{}', '({p: 1})', 'f0', N['len'], '(0 * (0 - 1))']
+TRUTH_VALUES = ['nil', FALSE, TRUE, '0', '(-0)', '(10 ** 400 - 10 ** 400)', '1', '0.5', '""', '"a"', '"0"', '" "', '[]', '[0]', '{}', '({p: 1})', 'f0', N['len'], '(0 * (0 - 1))',
+                '(0.1 + 0.2 - 0.3)', '(0.3 - 0.1 - 0.2)', '0.000000000000000001', '(-0.0000000000000000000000001)', '0.' + '0' * 323 + '5', '(1 / (10 ** 300))', '(10 ** 400)']
 
 def c14(tier, rng):
     cases = []
@@ -944,6 +958,13 @@ def c15(tier, rng):
         cases.append(prog_case(f'{P} {q};\n{P} [{q}, {q}];\n{P} {{k: {q}}};\n{P} "" + {q};\n{P} {q} + 1;\n{P} [[{q}]];\n', 'string', note=s_))
     cases.append(prog_case(f'{P} nil;\n{P} {TRUE};\n{P} {FALSE};\n{P} [nil, {TRUE}, {FALSE}, [], {{}}];\n{P} {{b: nil, aa: [1, "x", {{c: 2}}]}};\n{FUN} fn() {{}}\n{P} fn;\n{P} [fn, {N["len"]}, {N["clock"]}];\n{P} {N["input"]};\n', 'constants'))
     cases.append(prog_case(f'{P} 1;{P} 2;\n{P} "a\nb";\n', 'newline-per-print'))
+    for blk in ([1024, 4096, 8192] if tier == 'quick' else [256, 512, 1024, 2048, 4096, 8192, 16384, 65536]):
+        for off in range(-4, 2):
+            for pair in ['e\u0301', '\u09c7\u09be', '\u09af\u09bc', 'a\u0323\u0301']:
+                body = 'a' * (blk + off) + pair + 'z'
+                cases.append(prog_case(f'{P} "{body}";\n', 'long-string', note=body))
+                if blk + off < 6000:        # the model's fuel bounds the loop length
+                    cases.append(prog_case(f'{VAR} s = "";\n{FOR} ({VAR} i = 0; i < {blk + off}; i = i + 1) {{ s = s + "a"; }}\n{P} s + "{pair}" + "z";\n{P} [s + "{pair}"];\n', 'long-string-grown'))
     # several values in one run: what one print shows must not depend on what was printed before
     # (values that compare equal but print differently, repeated values, the same value in different positions)
     seqs = [['0', '-0'], ['-0', '0'], ['0', '-0', '0', '[0, -0]', '[-0, 0]', '"" + (-0)', '"" + 0'], ['1', '1.0', '"1"', '1'], ['"a"', '"a"', '["a"]', '"a"'],
@@ -1038,7 +1059,7 @@ def c16(tier, rng):
                     continue        # two reads in one program: not the same stdin position
                 src = pre + sub(ctx).replace('H2', lit_text).replace('H', prod) + '\n'
                 cases.append(prog_case(src, f'{kind}-context', stdin=stdin, group=f'{kind}:{value}:{ci}', note=(pi, prod)))
-    for lit in ['abc', '', '12', '3', 'k', '০৭', 'a b']:
+    for lit in ['abc', '', '12', '3', 'k', '০৭', 'a b', 'ন\u09df', 'প\u09dc\u09be', 'cafe\u0301', 'ম\u09c7\u09beট']:
         ps = str_producers(lit) if lit else ['""', '("" + "")', '({k: ""}).k', '[""][0]', 'rs("")', f'{N["input"]}()']
         emit('string', lit, ps, '"' + lit + '"', (lit + '\nsecond\n').encode())
     for n in ([3, 8, 1000000, 2097152] if tier == 'quick' else [3, 8, 1, 0, 64, 1000000, 2097152, 4294967296, 100000000]):
@@ -1047,7 +1068,7 @@ def c16(tier, rng):
     # numbers that are not non-negative integers: fractions, negatives, zero written several ways
     def frac_producers(t):
         return [t, f'({t} + 0)', f'(2 * {t} / 2)', f'rs({t})', f'[{t}][0]', f'({{k: {t}}}).k', f'(0 - (0 - {t}))', f'{N["max"]}({t}, {t})', f'({t} * 1)', f'(("" + {t}) * 1)']
-    for t in (['1.5', '(-1)', '0', '2.5'] if tier == 'quick' else ['1.5', '(-1)', '0', '2.5', '0.5', '(-0.5)', '(-2)', '4.000001', '1e21', '0.1']):
+    for t in (['1.5', '(-1)', '0', '2.5'] if tier == 'quick' else ['1.5', '(-1)', '0', '2.5', '0.5', '(-0.5)', '(-2)', '4.000001', '1000000000000000000000', '0.1']):
         emit('number', t, frac_producers(t), t, b'x\ny\n')
     rule = (f'{len(contexts)} one-hole contexts (print alone / nested, both sides of ==, condition, !, ||, &&, index, key, every operator position, every built-in argument, callee, property base) x 7 strings and {8 if tier == "quick" else 19} numbers (non-negative integers, fractions, negatives, zero), '
             'each produced 6..20 ways (literal, concatenation, property, element, function result, ইনপুট, keys/values listing; arithmetic, every bitwise operator, shifts, built-ins); all producers of one value must behave identically in each context (implementation alone) and as the model says. Non-trivial = all.')
@@ -1086,6 +1107,10 @@ def c17(tier, rng):
     for name in ('sin', 'cos', 'tan'):
         for a in ['0', '(-0)', '"0"', 'nil', '[]', '(10 ** 400)', '(10 ** 400 - 10 ** 400)'] + kinds:
             cases.append(prog_case(pre + f'{P} {N[name]}({a});\n', 'platform-unary'))
+    for name in ('sin', 'cos', 'tan'):
+        for a in ['1.5707963267948966', '1.5707963267948968', '1.5707963267948963', '3.141592653589793', '4.71238898038469', '6.283185307179586', '0.7853981633974483',
+                  '(-1.5707963267948966)', '1.5707963267948966 * 3', '1.5707963267948966 * 5', '0.5', '1', '2', '100', '1000000', '0.000001', '(0.1 + 0.2)']:
+            cases.append(prog_case(pre + f'{P} {N[name]}({a});\n', 'platform-notable'))
     for a in ['0', '1', '2', '3', '(-2)', '10', '0.5', '"2"', 'nil', '4', '(-1)']:
         for b_ in ['0', '1', '2', '3', '(-1)', '(-2)', '"2"', 'nil', '10']:
             cases.append(prog_case(pre + f'{P} {N["pow"]}({a}, {b_});\n{P} {a} ** {b_};\n{P} {N["pow"]}({a}, {b_}) == {a} ** {b_};\n', 'pow-equals-operator'))
@@ -1234,6 +1259,25 @@ def t_rename(toks, rng):
         mp[n] = pool.pop(rng.below(len(pool)))
     return [(tt, mp.get(lx_, lx_) if tt == TT_IDENT else lx_) for tt, lx_ in toks], {v_: k for k, v_ in mp.items()}
 
+# identifiers that are different code-point sequences but canonically equivalent: to the language they are different names
+EQUIV_NAMES = ['ম\u09cbট', 'ম\u09c7\u09beট', 'ন\u09df', 'ন\u09af\u09bc', 'প\u09dc', 'প\u09a1\u09bc', 'ক\u09cc', 'ক\u09c7\u09d7', 'caf\u00e9', 'cafe\u0301', '\u212bx', '\u00c5x']
+
+def t_rename_equiv(toks, rng):
+    """rename ALL user identifiers, in order of first use, to names of which neighbours are canonically equivalent"""
+    fixed = set(NAT.values()) | {'input'}
+    for i, (tt, lx_) in enumerate(toks):
+        if tt == TT_IDENT:
+            if (i > 0 and toks[i - 1][0] == TT_DOT) or (i + 1 < len(toks) and toks[i + 1][0] == TT_COLON):
+                fixed.add(lx_)
+    names = []
+    for tt, lx_ in toks:
+        if tt == TT_IDENT and lx_ not in fixed and lx_ not in names:
+            names.append(lx_)
+    off = rng.below(3) * 2
+    pool = EQUIV_NAMES[off:] + EQUIV_NAMES[:off]
+    mp = {n: pool[k] for k, n in enumerate(names[:len(pool)])}
+    return [(tt, mp.get(lx_, lx_) if tt == TT_IDENT else lx_) for tt, lx_ in toks], {v_: k for k, v_ in mp.items()}
+
 def tree_parens(e, rng):
     """wrap value-producing sub-expressions in redundant parentheses"""
     k = e[0]
@@ -1339,6 +1383,8 @@ def c18(tier, rng):
         variants.append(('synonyms', join_tokens(t_synonyms(toks, r), r, False), None))
         rn, back = t_rename(toks, r)
         variants.append(('rename', join_tokens(rn, r, False), back))
+        rq, backq = t_rename_equiv(toks, r)
+        variants.append(('rename', join_tokens(rq, r, False), backq))
         t2, back2 = t_rename(t_synonyms(t_digits(toks, r), r), r)
         variants.append(('combined', join_tokens(t2, r, True), back2))
         if i < len(trees):
@@ -1379,8 +1425,8 @@ def c18(tier, rng):
         cases.append(prog_case(pre_ + f'{P} {chain};\n', 'base', group=g))
         cases.append(prog_case(pre_ + f'{P} {grouped};\n', 'ladder-parens', group=g))
     rule = (f'every ordered pair of the {len(allops)} binary operators, and every prefix operator before / after each, written plain and parenthesised as the ladder prescribes ({gi} pairs of programs); '
-            f'{len(bases)} programs (generated, a third fault-free, and the shipped examples) x 9 variants: re-laid-out twice with blanks, tabs, line breaks outside ধরি declarations and {len(COMMENTS)} comment shapes between tokens; '
-            'digits swapped between scripts; && / এবং and || / বা exchanged; user identifiers renamed to fresh Latin / Bangla names; all of these combined; redundant parentheses around value-producing sub-expressions; never-executed code inserted. '
+            f'{len(bases)} programs (generated, a third fault-free, and the shipped examples) x 10 variants: re-laid-out twice with blanks, tabs, line breaks outside ধরি declarations and {len(COMMENTS)} comment shapes between tokens; '
+            'digits swapped between scripts; && / এবং and || / বা exchanged; user identifiers renamed to fresh Latin / Bangla names, and to names that differ only by canonical equivalence (precomposed / split vowel signs, nukta letters); all of these combined; redundant parentheses around value-producing sub-expressions; never-executed code inserted. '
             'All variants of a program must print the same and fail the same (line numbers and renamed names aside) on the implementation alone, and each must agree with the model. Non-trivial = all.')
     return {'cases': cases, 'rule': rule, 'exhaustive': False, 'oracles': [oracle_c18]}
 
